@@ -325,7 +325,9 @@ class Outcome:
                     if rec:
                         g = json.loads(rec)
                         i = ex % 1000
-                        if g.get("k") == "h":
+                        if grouped == "pair":
+                            rec = json.dumps(dict(k="p", tree=g.get("tree"), memtree=g.get("memtree"), own=g.get("own"), steps=[g["steps"][i - 1]] if 0 < i <= len(g["steps"]) else []))
+                        elif g.get("k") == "h":
                             cur = g["init"]
                             for st in g["steps"][:max(i - 1, 0)]:
                                 if st["same"] == "f":
